@@ -3,6 +3,7 @@ package rules
 import (
 	"fmt"
 	"go/token"
+	"go/types"
 	"strings"
 
 	"golang.org/x/tools/go/ssa"
@@ -272,7 +273,7 @@ func c03Paths(c *Ctx, m *searchModel) {
 					drawFact, drawKnown = f.Truth, true
 				}
 			}
-			atRoot, rootKnown := rootFact(st)
+			atRoot, rootKnown := rootFact(st, fn.Params[0].Name())
 			if working && !(drawKnown && !drawFact) && !(rootKnown && atRoot) {
 				badT = "evaluates the node (table probe / leaf / moves) without first establishing that the game is not already drawn [" + st.FactsString() + "]"
 			}
@@ -430,44 +431,9 @@ func c03Order(c *Ctx) {
 	if nml == nil {
 		return
 	}
-	// NewMoveList: one slot per input move; slot i holds moves[i]
-	okLen, okCopy := false, false
-	for _, b := range nml.Blocks {
-		for _, ins := range b.Instrs {
-			if ms, ok := ins.(*ssa.MakeSlice); ok && pathExpr(ms.Len) == "len("+nml.Params[0].Name()+")" {
-				okLen = true
-			}
-		}
-	}
-	{
-		in := newInterp(c.P)
-		in.SymLoopLimit = 4
-		nStores, nGood := 0, 0
-		var args []absint.Value
-		for _, p := range nml.Params {
-			args = append(args, absint.NewSym(p.Type(), p.Name()))
-		}
-		for _, o := range in.Run(nml, args, absint.NewState()) {
-			for _, e := range o.St.Effects {
-				if e.Kind != "store" {
-					continue
-				}
-				addr, ok := e.Args[0].(*absint.Sym)
-				val, ok2 := e.Args[1].(*absint.Struct)
-				if !ok || !ok2 || addr.Op != "&[]" || len(addr.Args) != 2 {
-					continue
-				}
-				mv, _ := structField(val, "m")
-				want := "[](" + nml.Params[0].Name() + "," + vstrOf(addr.Args[1]) + ")"
-				nStores++
-				if vstrOf(mv) == want {
-					nGood++
-				}
-			}
-		}
-		okCopy = nStores > 0 && nStores == nGood
-	}
-	r.Check(okLen && okCopy, "R03-order", "board.NewMoveList copies each input move into its own slot", c.pos(nml.Pos()), "", fmt.Sprintf("len ok=%v element copy ok=%v", okLen, okCopy))
+	// NewMoveList: one slot per input move; slot i holds moves[i] (indexed-assignment or append form)
+	okLen, okCopy, why := newMoveListCopies(nml)
+	r.Check(okLen && okCopy, "R03-order", "board.NewMoveList copies each input move into its own slot", c.pos(nml.Pos()), "", fmt.Sprintf("len ok=%v element copy ok=%v %s", okLen, okCopy, why))
 	in := newInterp(c.P)
 	// heap methods
 	if push := c.P.Func("pkg/board", "moveHeap", "Push"); push != nil {
@@ -513,21 +479,60 @@ func c03Order(c *Ctx) {
 		r.Check(good, "R03-order", "board.moveHeap.Pop removes exactly the last element", c.pos(pop.Pos()), "", detail)
 	}
 	if next := c.P.Func("pkg/board", "MoveList", "Next"); next != nil {
-		// Next: size == 0 -> (zero,false); else heap.Pop
-		hasPop, hasEmptyTest := false, false
-		for _, b := range next.Blocks {
-			for _, ins := range b.Instrs {
-				if call, ok := ins.(*ssa.Call); ok && call.Call.StaticCallee() != nil {
-					if call.Call.StaticCallee().String() == "container/heap.Pop" {
-						hasPop = true
-					}
-					if call.Call.StaticCallee().Name() == "Size" {
-						hasEmptyTest = true
-					}
+		// Next: (zero,false) exactly when the list is empty; otherwise one heap.Pop. Decided over
+		// the size as a symbolic non-negative integer, so any form of the emptiness test is fine.
+		in2 := newInterp(c.P)
+		intT := types.Typ[types.Int]
+		size := absint.NewSym(intT, "size")
+		pops := func(st *absint.State) int {
+			n := 0
+			for _, e := range st.Effects {
+				if e.Kind == "q:heap.Pop" {
+					n++
 				}
 			}
+			return n
 		}
-		r.Check(hasPop && hasEmptyTest, "R03-order", "board.MoveList.Next pops until empty", c.pos(next.Pos()), "", "")
+		in2.Hook = func(in *absint.Interp, st *absint.State, site ssa.CallInstruction, callee *ssa.Function, args []absint.Value, k func(*absint.State, absint.Value)) bool {
+			if callee == nil {
+				return false
+			}
+			switch {
+			case callee.Name() == "Size" || callee.Name() == "Len":
+				k(st, size)
+				return true
+			case callee.String() == "container/heap.Pop":
+				st.Effects = append(st.Effects, absint.Effect{Kind: "q:heap.Pop", Pos: site.Pos()})
+				k(st, absint.NewSym(callee.Signature.Results().At(0).Type(), "popped"))
+				return true
+			}
+			return false
+		}
+		st0 := absint.NewState()
+		absint.Assume(st0, absint.BinOp(token.LSS, size, absint.MkInt(0, intT), types.Typ[types.Bool]), false)
+		var nbad []string
+		outs := in2.Run(next, []absint.Value{absint.NewSym(next.Params[0].Type(), "ml")}, st0)
+		for _, o := range outs {
+			if o.Panic {
+				continue
+			}
+			tup, ok := o.Ret.(*absint.Tuple)
+			if !ok || len(tup.E) != 2 {
+				nbad = append(nbad, "unexpected result shape")
+				continue
+			}
+			okv, known := absint.ConstBool(tup.E[1])
+			empty, eknown := absint.Decide(o.St, absint.BinOp(token.EQL, size, absint.MkInt(0, intT), types.Typ[types.Bool]))
+			switch {
+			case !known || !eknown:
+				nbad = append(nbad, "a path does not decide emptiness: "+o.St.FactsString())
+			case okv && (empty || pops(o.St) != 1):
+				nbad = append(nbad, "reports a move without popping exactly one from a non-empty list: "+o.St.FactsString())
+			case !okv && !empty:
+				nbad = append(nbad, "reports exhaustion while moves remain: "+o.St.FactsString())
+			}
+		}
+		r.Check(len(outs) >= 2 && len(nbad) == 0, "R03-order", "board.MoveList.Next pops until empty", c.pos(next.Pos()), "", strings.Join(nbad, "; "))
 	}
 	// priorities only read the move: First/MVVLVA/Selection closures contain no store to a Move or slice of moves
 	var offenders []string
@@ -554,4 +559,279 @@ func c03Order(c *Ctx) {
 		}
 	}
 	r.Check(len(offenders) == 0, "R03-order", "priority and selection functions do not modify moves", "", "", strings.Join(offenders, ", "))
+}
+
+// resolveDefs returns the values v can stand for: looks through conversions, phis and loads of
+// address-taken locals (all values ever stored to the local).
+func resolveDefs(v ssa.Value, seen map[ssa.Value]bool, out *[]ssa.Value) {
+	v = stripConv(v)
+	if seen[v] {
+		return
+	}
+	seen[v] = true
+	switch x := v.(type) {
+	case *ssa.Phi:
+		for _, e := range x.Edges {
+			resolveDefs(e, seen, out)
+		}
+		return
+	case *ssa.UnOp:
+		if al, ok := x.X.(*ssa.Alloc); ok && x.Op == token.MUL {
+			n := 0
+			for _, ref := range *al.Referrers() {
+				if st, ok := ref.(*ssa.Store); ok && st.Addr == al {
+					resolveDefs(st.Val, seen, out)
+					n++
+				}
+			}
+			if n > 0 {
+				return
+			}
+		}
+	}
+	*out = append(*out, v)
+}
+
+// newMoveListCopies decides, on the shape of the single loop over the input slice, that the
+// container built holds exactly moves[0..n-1], one element per input move. Two idioms:
+// make(n) + h[i] = elm{m: moves[i]}, and make(0, cap) + h = append(h, elm{m: moves[i]}).
+func newMoveListCopies(fn *ssa.Function) (okLen, okCopy bool, why string) {
+	if len(fn.Params) == 0 {
+		return false, false, "no parameters"
+	}
+	moves := fn.Params[0]
+	isLenMoves := func(v ssa.Value) bool {
+		call, ok := stripConv(v).(*ssa.Call)
+		if !ok {
+			return false
+		}
+		bi, ok := call.Call.Value.(*ssa.Builtin)
+		return ok && bi.Name() == "len" && len(call.Call.Args) == 1 && call.Call.Args[0] == moves
+	}
+	// the index the input is read at
+	var idx ssa.Value
+	var reads []*ssa.IndexAddr
+	for _, b := range fn.Blocks {
+		for _, ins := range b.Instrs {
+			if ia, ok := ins.(*ssa.IndexAddr); ok && ia.X == moves {
+				if idx != nil && ia.Index != idx {
+					return false, false, "the input slice is read at more than one index"
+				}
+				idx = ia.Index
+				reads = append(reads, ia)
+			}
+		}
+	}
+	if idx == nil {
+		return false, false, "the input slice is never read by index"
+	}
+	// idx visits 0..len(moves)-1 once each
+	var phi *ssa.Phi
+	var init int64
+	switch x := idx.(type) {
+	case *ssa.Phi:
+		phi, init = x, 0
+	case *ssa.BinOp:
+		if p, ok := x.X.(*ssa.Phi); ok && x.Op == token.ADD {
+			if k, ok := constInt(x.Y); ok && k == 1 {
+				phi, init = p, -1
+			}
+		}
+	}
+	if phi == nil {
+		return false, false, "the read index is not a counted loop variable"
+	}
+	iv, ok := inductionVar(phi)
+	if !ok || iv.Step != 1 || !iv.InitIsC || iv.InitC != init {
+		return false, false, "the read index does not start at 0 and step by 1"
+	}
+	if init == -1 { // range form: the variable advances through idx itself
+		good := false
+		for _, e := range phi.Edges {
+			if e == idx {
+				good = true
+			}
+		}
+		if !good {
+			return false, false, "the loop variable does not advance by the read index"
+		}
+	}
+	header := phi.Block()
+	ifi, isIf := header.Instrs[len(header.Instrs)-1].(*ssa.If)
+	if !isIf {
+		return false, false, "loop header has no bound test"
+	}
+	cond, isBin := ifi.Cond.(*ssa.BinOp)
+	if !isBin || cond.Op != token.LSS || cond.X != idx || !isLenMoves(cond.Y) {
+		return false, false, "the loop does not run while index < len(input)"
+	}
+	body := header.Succs[0]
+	var latch *ssa.BasicBlock
+	for _, p := range header.Preds {
+		if body.Dominates(p) {
+			latch = p
+		}
+	}
+	if latch == nil {
+		return false, false, "no back edge found"
+	}
+	// the single production: an element whose move field is moves[idx], stored into a slot
+	isMoveRead := func(v ssa.Value) bool {
+		ld, ok := v.(*ssa.UnOp)
+		if !ok || ld.Op != token.MUL {
+			return false
+		}
+		for _, r := range reads {
+			if ld.X == r {
+				return true
+			}
+		}
+		return false
+	}
+	var prod *ssa.Store
+	var slot *ssa.IndexAddr
+	n := 0
+	for _, b := range fn.Blocks {
+		for _, ins := range b.Instrs {
+			st, ok := ins.(*ssa.Store)
+			if !ok {
+				continue
+			}
+			// direct form: &slot.m = moves[idx]
+			if fa, ok := st.Addr.(*ssa.FieldAddr); ok && isMoveRead(st.Val) {
+				if ia, ok := fa.X.(*ssa.IndexAddr); ok {
+					prod, slot = st, ia
+					n++
+				}
+				continue
+			}
+			// literal form: *slot = *lit, where lit is a local whose move field was set to moves[idx]
+			ia, ok := st.Addr.(*ssa.IndexAddr)
+			if !ok {
+				continue
+			}
+			ld, ok := st.Val.(*ssa.UnOp)
+			if !ok || ld.Op != token.MUL {
+				continue
+			}
+			lit, ok := ld.X.(*ssa.Alloc)
+			if !ok {
+				continue
+			}
+			fromInput := 0
+			for _, ref := range *lit.Referrers() {
+				if fa, ok := ref.(*ssa.FieldAddr); ok {
+					for _, r2 := range *fa.Referrers() {
+						if fst, ok := r2.(*ssa.Store); ok && fst.Addr == fa && isMoveRead(fst.Val) {
+							fromInput++
+						}
+					}
+				}
+			}
+			if fromInput == 1 {
+				prod, slot = st, ia
+				n++
+			}
+		}
+	}
+	if n != 1 {
+		return false, false, fmt.Sprintf("%d stores of an input move into a container element (expected exactly 1)", n)
+	}
+	if !(body.Dominates(prod.Block()) && prod.Block().Dominates(latch)) {
+		return false, false, "the element is not produced on every iteration"
+	}
+	// the loop is left only through its bound test (no break/return that would leave slots unfilled)
+	inLoop := map[*ssa.BasicBlock]bool{header: true}
+	var mark func(b *ssa.BasicBlock)
+	mark = func(b *ssa.BasicBlock) {
+		if inLoop[b] {
+			return
+		}
+		inLoop[b] = true
+		for _, p := range b.Preds {
+			mark(p)
+		}
+	}
+	mark(latch)
+	for b := range inLoop {
+		if b == header {
+			continue
+		}
+		for _, sc := range b.Succs {
+			if !inLoop[sc] {
+				return false, false, "the loop over the input can be left before every move was copied"
+			}
+		}
+		if len(b.Succs) == 0 {
+			return false, false, "the loop over the input can be left before every move was copied"
+		}
+	}
+	var defs []ssa.Value
+	switch base := slot.X.(type) {
+	case *ssa.Alloc: // varargs array of an append
+		if k, ok := constInt(slot.Index); !ok || k != 0 {
+			return false, false, "unexpected temporary array index"
+		}
+		var app *ssa.Call
+		for _, ref := range *base.Referrers() {
+			if sl, ok := ref.(*ssa.Slice); ok {
+				for _, r2 := range *sl.Referrers() {
+					if call, ok := r2.(*ssa.Call); ok {
+						if bi, ok := call.Call.Value.(*ssa.Builtin); ok && bi.Name() == "append" && len(call.Call.Args) == 2 && call.Call.Args[1] == sl {
+							app = call
+						}
+					}
+				}
+			}
+		}
+		if app == nil || app.Block() != prod.Block() {
+			return false, false, "the element is not appended in the same iteration"
+		}
+		resolveDefs(app.Call.Args[0], map[ssa.Value]bool{}, &defs)
+		okCopy = true
+		okLen = len(defs) > 0
+		for _, d := range defs {
+			if d == app {
+				continue
+			}
+			ms, ok := d.(*ssa.MakeSlice)
+			if !ok {
+				okLen = false
+				why = "append target is not a fresh empty slice: " + pathExpr(d)
+				continue
+			}
+			if k, ok := constInt(ms.Len); !ok || k != 0 {
+				okLen = false
+				why = "append target does not start empty"
+			}
+		}
+		// the appended slice must be what the function keeps
+		kept := false
+		for _, ref := range *app.Referrers() {
+			switch y := ref.(type) {
+			case *ssa.Store:
+				kept = kept || y.Val == app
+			case *ssa.Phi:
+				kept = true
+			}
+		}
+		if !kept {
+			okCopy, why = false, "the result of append is dropped"
+		}
+	default:
+		if slot.Index != idx {
+			return false, false, "slot index differs from the read index"
+		}
+		resolveDefs(slot.X, map[ssa.Value]bool{}, &defs)
+		okCopy = true
+		okLen = len(defs) > 0
+		for _, d := range defs {
+			ms, ok := d.(*ssa.MakeSlice)
+			if !ok || !isLenMoves(ms.Len) {
+				okLen = false
+				why = "container is not make(.., len(input)): " + pathExpr(d)
+			}
+		}
+	}
+	return
 }
